@@ -62,11 +62,15 @@ def Env.mainAddr (e : Env) : String := (e.modAddr? mainModule).getD ""
 
 /-! ## validation -/
 
+/-- the bank address behind a BASE_ACCOUNT id: bech32 admits an all-upper-case spelling of the same
+    address, the SDK decodes both to the same account -/
+def canonAddr (id : String) : String := id.toLower
+
 /-- `Account.Validate` (with the D21 repair: no alias of the main account) -/
 def accountValid (e : Env) (a : Account) : Bool :=
   if a.type = tMain then true
   else if a.type = tInternal then a.id ≠ ""
-  else if a.type = tBase then a.bech32Ok && a.id ≠ e.mainAddr
+  else if a.type = tBase then a.bech32Ok && canonAddr a.id ≠ e.mainAddr
   else if a.type = tModule then (e.modAddr? a.id).isSome && a.id ≠ mainModule
   else false
 
@@ -254,7 +258,7 @@ def prepareNotMain (e : Env) (w : World) (src : Account) : Outcome (DecCoins × 
       match e.modAddr? src.id with
       | none => .panic          -- GetModuleAccount(...) == nil → nil dereference
       | some addr => .ok (sweep e w addr)
-    else if src.type ≠ tInternal then .ok (sweep e w src.id)
+    else if src.type ≠ tInternal then .ok (sweep e w (canonAddr src.id))
     else .ok ([], w)
   match swept with
   | .ok (c, w1) =>
@@ -381,8 +385,8 @@ def payoutOne (e : Env) (w : World) (s : DState) : Outcome (DState × World) :=
       else
         if !a.bech32Ok then .ok (s, w) else
         if w.faulty then .ok (s, w.tick) else
-        if e.blocked.contains a.id then .ok (s, w.tick) else
-        match w.bank.send e.mainAddr a.id toSend with
+        if e.blocked.contains (canonAddr a.id) then .ok (s, w.tick) else
+        match w.bank.send e.mainAddr (canonAddr a.id) toSend with
         | none => .ok (s, w.tick)
         | some b => .ok ({ s with remains := change }, { w.tick with bank := b })
     else .ok (s, w)
